@@ -986,6 +986,19 @@ def glue_greenback() -> None:
                     "in this frame"
                 )
 
+    if hasattr(greenback._impl, "greenback_shim"):  # pragma: no branch
+
+        @elaborate_frame.register(greenback._impl.greenback_shim)
+        def elaborate_outer_greenback_shim(frame: Frame, next_inner: object) -> object:
+            # The coroutine that bestow_portal() / ensure_portal() puts in
+            # place of the task's own. Until the task's next step it is
+            # parked at its initial yield, and the task's own coroutine
+            # (suspended wherever it was, or running if this is the current
+            # task) is known only to this frame, as orig_coro.
+            if "next_send" not in frame.pyframe.f_locals:
+                return frame.pyframe.f_locals.get("orig_coro")
+            return None
+
     @elaborate_frame.register(greenback._impl._greenback_shim)
     def elaborate_greenback_shim(frame: Frame, next_inner: object) -> object:
         frame.hide = True
